@@ -118,10 +118,11 @@ def obligations(tier):
         for t in ts:
             obs.append(Ob("C08.literals", F, "literals", 300, part="%d,%d" % (q, t), what="ensure_literal/prevent_literal: occurrence = constant of the same type and equal value"))
     obs.append(Ob("C08.literal_types", F, "literal_types", 400, what="ensure/prevent_literal_type for int, float, str, bool"))
-    ks = range(10) if tier == "thorough" else (0, 3, 5, 8)
+    ks = range(16) if tier == "thorough" else (0, 3, 5, 8, 11, 15)
     for k in ks:
         obs.append(Ob("C08.asts_imports", F, "asts_imports", 300, part=str(k), what="ensure/prevent_ast for a node kind (partition) and ensure/prevent_import"))
     for part in (("0,1,0", "1,1,0", "1,0,1", "1,1,1", "0,0,1") if tier == "quick" else ["%d,%d,%d" % (b, f, v) for b in (0, 1) for f in (0, 1) for v in (0, 1)]):
         obs.append(Ob("C08.default_root", F, "default_root", 400, part=part, what="history on one report: (verify,) default check, then a helper parses other code - valid or NOT PARSABLE - via student_code=, then ensure_ast / prevent_ast / find_operation without root= still describe the submission (partition = other code bad, checked before, verified first)"))
+    obs.append(Ob("C08.literal_kinds", F, "literal_kinds", 200, what="complex and bytes literals (query and program constants from a menu incl. 1j/2j, b'a'/b'zzz'): ensure_literal / prevent_literal count constants of the same type and equal value"))
     obs.append(Ob("C08.calls_reach", F, "calls_reach", 60, expect="refute", what="twin: prevent_function_call fires"))
     return obs
